@@ -1111,4 +1111,311 @@ theorem callMethodL_emb (c : ECfg) {evL : EvL} {ev : Ev} (hev : EmbEv evL ev) (C
     | rfl
     | (split <;> first | rfl | (exfalso; simp_all))
 
+/-! ## functions, nodes, the interpreter -/
+
+theorem ite_emb {g : α → β} (p : Prop) [Decidable p] {xL yL : RL β} {x y : R α} (hx : Emb g xL x) (hy : Emb g yL y) :
+    Emb g (if p then xL else yL) (if p then x else y) := by
+  split <;> assumption
+
+theorem fnAsMethod_emb (c : ECfg) {evL : EvL} {ev : Ev} (hev : EmbEv evL ev) (C : Ctx) (b : Bool) (recv : Expr) (f : Fn)
+    (rest : List Expr) :
+    Emb emb
+      (if (!b) = true then .error (.base .noFunction)
+        else do let r ← evL C recv; callMethodL c Lim.off evL C .noFunction r f rest)
+      (if (!b) = true then .error .noFunction
+        else do let r ← ev C recv; Eval.callMethod ev C .noFunction r f rest) := by
+  cases b with
+  | false => rfl
+  | true =>
+    simp only [Bool.not_true, Bool.false_eq_true, if_false]
+    apply Emb.bind (hev C _); intro r
+    exact callMethodL_emb c hev C _ r _ _
+
+theorem dictItems_eq (xs : VL) :
+    xs.mapM (fun it => match it with
+      | .tuple (k :: v :: _) | .list (k :: v :: _) => (.ok (k, v) : R (Value × Value))
+      | .tuple _ | .list _ => .error .stopIteration
+      | _ => .error .outOfDomain) = xs.mapM pairOfE := rfl
+
+theorem callFnL_emb (c : ECfg) {evL : EvL} {ev : Ev} (hev : EmbEv evL ev) (C : Ctx) (f : Fn) (args : List Expr)
+    (kw : List (Expr × Expr)) : Emb emb (callFnL c Lim.off evL C f args kw) (Eval.callFn ev C f args kw) := by
+  unfold callFnL Eval.callFn
+  cases f with
+  | let_ =>
+    dsimp only
+    apply Emb.bind (Emb.liftR _); intro names
+    apply Emb.bind (evalListL_emb hev C _); intro vs
+    apply Emb.bind (evalListL_emb hev C _); intro kvs
+    simp only [id, measureEach_off, ok_bind]
+    exact Emb.pure rfl
+  | with_ =>
+    dsimp only
+    refine ite_emb _ ?_ ?_
+    · exact Emb.bind (Emb.liftR _) (fun _ => Emb.err _)
+    · apply Emb.bind (evalListL_emb hev C _); intro vs
+      simp only [id, measureEach_off, ok_bind]
+      exact Emb.pure rfl
+  | def_ =>
+    dsimp only
+    refine ite_emb _ (Emb.err _) ?_
+    match args with
+    | [] => rfl
+    | [_] => rfl
+    | [nameE, body] =>
+      dsimp only
+      apply Emb.bind (hev C _); intro no
+      cases no with
+      | val v =>
+        cases v with
+        | str name => simp only [emb, measure_off, ok_bind]; rfl
+        | _ => first | rfl | (show Emb emb (if isLazyL (emb (Obj.val _)) = true then _ else _) (if _ then _ else _); rw [isLazyL_emb]; split <;> rfl)
+      | _ => rfl
+    | _ :: _ :: _ :: _ => rfl
+  | list =>
+    dsimp only
+    refine ite_emb _ (Emb.err _) ?_
+    apply Emb.bind (evalObjsL_emb hev C _); intro os
+    simp only [measureEach_off, measure_off, ok_bind, limitLazy_off]
+    exact Emb.bind (listFn_emb os) (fun parts => Emb.pure rfl)
+  | dict =>
+    dsimp only
+    match args, kw with
+    | [], kw =>
+      dsimp only
+      apply Emb.bind (evalPairsL_emb hev C _); intro ps
+      simp only [id, measureAll_off, ok_bind]
+      exact mkDictL_emb ps
+    | [e], [] =>
+      dsimp only
+      apply Emb.bind (hev C _); intro o
+      rw [toIterL_emb]
+      cases h : Eval.toIter o with
+      | none => rfl
+      | some s =>
+        obtain ⟨xs, e⟩ := s
+        simp only [Option.map_some, bindIter_off c o h, ok_bind]
+        cases e with
+        | some er => rfl
+        | none =>
+          show Emb emb (do let ps ← dictItemsL c Lim.off [] xs; mkDictL ps)
+            (do let ps ← xs.mapM pairOfE; Eval.mkDict ps)
+          exact Emb.bind (dictItemsL_off c xs []) (fun ps => mkDictL_emb ps)
+    | [_], _ :: _ => rfl
+    | _ :: _ :: _, _ => rfl
+  | len =>
+    dsimp only
+    refine ite_emb _ (Emb.err _) ?_
+    match args with
+    | [] => rfl
+    | recv :: rest => exact fnAsMethod_emb c hev C _ recv _ rest
+  | any =>
+    dsimp only
+    refine ite_emb _ (Emb.err _) ?_
+    match args with
+    | [] => rfl
+    | recv :: rest => exact fnAsMethod_emb c hev C _ recv _ rest
+  | all =>
+    dsimp only
+    refine ite_emb _ (Emb.err _) ?_
+    match args with
+    | [] => rfl
+    | recv :: rest => exact fnAsMethod_emb c hev C _ recv _ rest
+  | _ => rfl
+
+theorem readVarL_emb (C : Ctx) (x : Name) : Emb emb (readVarL C x) (Eval.readVar C x) := by
+  unfold readVarL Eval.readVar
+  cases C.get x with
+  | none => rfl
+  | some v =>
+    dsimp only
+    split <;> rfl
+
+theorem rawL_emb (c : ECfg) {evL : EvL} {ev : Ev} (hev : EmbEv evL ev) (C : Ctx) (e : Expr) :
+    Emb emb (rawL c Lim.off evL C e) (Eval.step ev C e) := by
+  cases e with
+  | lit v => rfl
+  | kw s => rfl
+  | var x => exact readVarL_emb C x
+  | list es =>
+    unfold rawL Eval.step
+    dsimp only
+    apply Emb.bind (evalListL_emb hev C es); intro vs
+    simp only [id, measureEach_off, measureAll_off, ok_bind]
+    exact Emb.pure rfl
+  | map kvs =>
+    unfold rawL Eval.step
+    dsimp only
+    apply Emb.bind (evalPairsL_emb hev C kvs); intro ps
+    simp only [id, measureAll_off, ok_bind]
+    exact mkDictL_emb ps
+  | index e args =>
+    unfold rawL Eval.step
+    dsimp only
+    refine ite_emb _ ?_ (Emb.err _)
+    apply Emb.bind (hev C e); intro r
+    apply Emb.bind (evalListL_emb hev C args); intro vs
+    exact indexerL_emb c r vs
+  | un op e =>
+    unfold rawL Eval.step
+    dsimp only
+    apply Emb.bind (hev C e); intro r
+    exact unopL_emb c op r
+  | bin op a b =>
+    cases op with
+    | and =>
+      unfold rawL Eval.step
+      dsimp only
+      apply Emb.bind (hev C a); intro x
+      rw [truthyObjL_emb]
+      exact ite_emb _ (hev C b) (Emb.pure rfl)
+    | or =>
+      unfold rawL Eval.step
+      dsimp only
+      apply Emb.bind (hev C a); intro x
+      rw [truthyObjL_emb]
+      exact ite_emb _ (Emb.pure rfl) (hev C b)
+    | _ =>
+      unfold rawL Eval.step
+      dsimp only
+      refine ite_emb _ ?_ (Emb.err _)
+      apply Emb.bind (hev C a); intro x
+      apply Emb.bind (hev C b); intro y
+      exact binopL_emb c _ x y
+  | arrow l r =>
+    unfold rawL Eval.step
+    dsimp only
+    apply Emb.bind (hev C l); intro cx
+    cases cx with
+    | ctx C' =>
+      simp only [emb, measure_off, ok_bind]
+      exact hev C' r
+    | _ => rfl
+  | member e name =>
+    unfold rawL Eval.step
+    dsimp only
+    apply Emb.bind (hev C e); intro r
+    exact memberOfL_emb c r name
+  | call f args kw => exact callFnL_emb c hev C f args kw
+  | ucall f args kw =>
+    unfold rawL Eval.step
+    dsimp only
+    cases C.getFun f with
+    | none => rfl
+    | some p =>
+      obtain ⟨body, D⟩ := p
+      apply Emb.bind (Emb.liftR _); intro names
+      apply Emb.bind (evalListL_emb hev C _); intro vs
+      apply Emb.bind (evalListL_emb hev C _); intro kvs
+      simp only [id, measureEach_off, ok_bind]
+      exact hev _ _
+  | method e f args kw =>
+    unfold rawL Eval.step
+    dsimp only
+    apply Emb.bind (hev C e); intro r
+    refine ite_emb _ (Emb.err _) ?_
+    simp only [measure_off, ok_bind]
+    exact callMethodL_emb c hev C _ r f args
+  | umethod e f =>
+    unfold rawL Eval.step
+    dsimp only
+    apply Emb.bind (hev C e); intro r
+    simp only [measure_off, ok_bind]
+    rfl
+
+theorem stepL_off (c : ECfg) (evL : EvL) (C : Ctx) (e : Expr) : stepL c Lim.off evL C e = rawL c Lim.off evL C e := by
+  unfold stepL
+  split
+  · rfl
+  · cases rawL c Lim.off evL C e with
+    | ok o => simp only [ok_bind, measure_off]; rfl
+    | error er => rfl
+
+/-- **without limits the instrumented interpreter is the reference interpreter** -/
+theorem evalL_off (c : ECfg) : ∀ (n : Nat), EmbEv (evalL c Lim.off n) (Eval.eval n)
+  | 0 => fun _ _ => rfl
+  | n + 1 => fun C e => by
+    show Emb emb (stepL c Lim.off (evalL c Lim.off n) C e) (Eval.step (Eval.eval n) C e)
+    rw [stepL_off]
+    exact rawL_emb c (evalL_off c n) C e
+
+/-! ## the finaliser without limits -/
+
+mutual
+theorem walkV_off (c : ECfg) : ∀ v : Value, walkV c Lim.off v = .ok ()
+  | .tuple l => by unfold walkV; simp only [measure_off, limitLen_off, ok_bind]; exact walkL_off c l
+  | .list l => by unfold walkV; simp only [measure_off, limitLen_off, ok_bind]; exact walkL_off c l
+  | .set l => by unfold walkV; simp only [measure_off, limitLen_off, ok_bind]; exact walkL_off c l
+  | .iter l => by unfold walkV; simp only [measure_off, ok_bind]; exact walkL_off c l
+  | .dict kvs => by unfold walkV; simp only [limitLen_off, ok_bind]; exact walkP_off c kvs
+  | .null => rfl
+  | .bool _ => rfl
+  | .int _ => rfl
+  | .flt _ => rfl
+  | .str _ => rfl
+  | .host _ => rfl
+theorem walkL_off (c : ECfg) : ∀ xs : VL, walkL c Lim.off none xs = .ok ()
+  | [] => rfl
+  | x :: xs => by
+    rw [walkL_cons c Lim.off none (by intro h; cases h), walkV_off c x]
+    exact walkL_off c xs
+theorem walkP_off (c : ECfg) : ∀ kvs : List (Value × Value), walkP c Lim.off kvs = .ok ()
+  | [] => rfl
+  | (k, v) :: r => by
+    unfold walkP
+    rw [walkV_off c k, walkV_off c v]
+    exact walkP_off c r
+end
+
+theorem finVal_off (c : ECfg) (v : Value) :
+    Emb id (finVal c Lim.off v) (if Seq.finOk v = true then .ok (Final.data v) else .error .type) := by
+  unfold finVal
+  simp only [measure_off, walkV_off, afterWalk, ok_bind]
+  split <;> rfl
+
+theorem finaliseL_off (c : ECfg) (o : Obj) : Emb id (finaliseL c Lim.off (emb o)) (Eval.finalise o) := by
+  have iter : ∀ (o : Obj) (s : VL × Option Err), Eval.toIter o = some s →
+      Emb id (do EvalLimits.measure Lim.off (objSz c (emb o)); let s ← bindIter c Lim.off (emb o); finIter c Lim.off s)
+        (do let xs ← Eval.drain s; if Seq.finOkL xs then pure (Final.data (.list xs)) else .error .type) := by
+    intro o s h
+    obtain ⟨xs, e⟩ := s
+    rw [measure_off, bindIter_off c o h]
+    simp only [ok_bind]
+    cases e with
+    | some er => rfl
+    | none =>
+      show Emb id (finIter c Lim.off (xs, none)) _
+      unfold finIter
+      simp only
+      rw [walkL_off]
+      show Emb id (do afterWalk (Seq.finOkL xs) (.ok ()); _) _
+      simp only [afterWalk, ok_bind]
+      show Emb id _ (if Seq.finOkL xs = true then pure (Final.data (.list xs)) else .error .type)
+      split
+      · simp only [measure_off, ok_bind]; rfl
+      · rfl
+  cases o with
+  | ctx cx => show Emb id (do EvalLimits.measure Lim.off _; pure Final.context) _; rw [measure_off]; rfl
+  | lazy xs e => exact iter (.lazy xs e) (xs, e) rfl
+  | ordered xs e => exact iter (.ordered xs e) (xs, e) rfl
+  | val v =>
+    cases v with
+    | tuple l => exact iter (.val (.tuple l)) (l, none) rfl
+    | list l => exact iter (.val (.list l)) (l, none) rfl
+    | iter l => exact iter (.val (.iter l)) (l, none) rfl
+    | null => exact finVal_off c .null
+    | bool b => exact finVal_off c (.bool b)
+    | int i => exact finVal_off c (.int i)
+    | flt b => exact finVal_off c (.flt b)
+    | str s => exact finVal_off c (.str s)
+    | dict d => exact finVal_off c (.dict d)
+    | set l => exact finVal_off c (.set l)
+    | host i => exact finVal_off c (.host i)
+
+/-- the whole run: `runL` without limits is `Eval.run` -/
+theorem runL_off (c : ECfg) (fuel : Nat) (doc : Value) (e : Expr) :
+    Emb id (runL c Lim.off fuel doc e) (Eval.run fuel doc e) := by
+  unfold runL Eval.run
+  apply Emb.bind (evalL_off c fuel _ _); intro o
+  exact finaliseL_off c o
+
 end Yaql.Props.C08Eval
